@@ -61,6 +61,11 @@ def post(ctx, sr):
                 depth = max(0, depth - 1)
                 lay = None
             elif kind == "layer":
+                cur_ = sr.impl[i][k].parse()
+                if cur_["layer"] is not None and any(v != "00000000" for v in cur_["layer"][1]):
+                    ctx.violation("history-%s" % sr.cases[i].split()[1], sc.truncate_case(sr.aug[i], k),
+                                  "a layer just pushed is not empty: it holds pixels left by earlier calls (on a fresh DrawTarget with the same visible state it is transparent) (op %d)" % k)
+                    return
                 depth += 1
                 lay = dict(state=list(state_ops), op=op, clean=True) if depth == 1 else None
             elif kind in ("xf", "cliprect", "clippath", "popclip", "surf") and lay is not None:
